@@ -97,10 +97,13 @@ def _alarm(signum, frame):
     raise QueryTimeout("a single Brownian query did not return within 30 s")
 
 
+QUERY_LIMIT = [30]
+
+
 def query(bm, a, b, cfg):
     """returns (W, U or None, A or None); a query that does not return within 30 s raises QueryTimeout"""
     old = signal.signal(signal.SIGALRM, _alarm)
-    signal.alarm(30)
+    signal.alarm(QUERY_LIMIT[0])
     try:
         return _query(bm, a, b, cfg)
     finally:
@@ -183,6 +186,14 @@ def search_chen(rng, n_cfg, n_hist, n_triples, tol=1e-8, allow_cache0=False, for
             stats['queries'] += len(hist)
             for _ in range(n_triples):
                 s, u, t = sorted(random_time(rng, cfg) for _ in range(3))
+                if cfg['tol'] > 0 and rng.random() < 0.35:
+                    # neighbouring resolved times: intervals one or a few resolution steps long are ordinary intervals
+                    nd = -int(math.log10(cfg['tol']))
+                    g = 10.0 ** (-nd)
+                    s = resolved(cfg, min(s, cfg['t0'] + cfg['span'] - 8 * g))
+                    u = round(s + rng.choice([1, 1, 2, 3]) * g, nd)
+                    t = round(u + rng.choice([1, 1, 2, 4]) * g, nd)
+                    stats['neighbour_triples'] = stats.get('neighbour_triples', 0) + 1
                 d = chen_defect(bm, cfg, s, u, t)
                 stats['triples'] += 1
                 pd = pieces_defect(bm, cfg, s, t)
@@ -603,6 +614,23 @@ def robustness_search(rng, n_cfg, n_long):
         st['configs'] += 1
         if r:
             fails.append(r)
+    # solver-shaped history whose grid is 1 ulp off the output times: a step of a few ulps right when the warm-up period ends
+    # (what sdeint produces for e.g. ts = linspace(10, 11, 101), dt = 0.01); an ordinary query must return promptly
+    for j, t0 in [(0, 10.0), (1, 10.0), (2, 0.0), (5, -1.0)]:
+        cfg = dict(t0=t0, span=1.0, size=(2,), levy=rng.choice(LEVY), entropy=11, cache_size=rng.choice([45, None, 3]), dt=None,
+                   tol=0.0, halfway=False)
+        n = 100 + j
+        hist = [(t0 + 0.005 * i, t0 + 0.005 * (i + 1)) for i in range(n)]
+        a = hist[-1][1]
+        hist += [(a, a + 4 * math.ulp(a))] + [(a + 4 * math.ulp(a), a + 0.005), (a + 0.005, a + 0.01)]
+        QUERY_LIMIT[0] = 6
+        try:
+            r = run(cfg, hist, f'sliver step at query {n + 1} (warm-up just over)')
+        finally:
+            QUERY_LIMIT[0] = 30
+        st['configs'] += 1
+        if r:
+            fails.append(r)
     # long solver-shaped histories (forward then backward)
     for n in n_long:
         for kw in [dict(), dict(cache_size=None), dict(cache_size=0), dict(dt=1.0 / n)]:
@@ -761,3 +789,78 @@ def element_noise_search(rng, n_cfg, n_hist):
                                       element=(eb, ej), changed=[list(map(int, i)) for i in (~same).nonzero()[:4]]))
                     return fails, st
     return fails, st
+
+
+def rows_distinct_search(rng, n_cfg):
+    """"rows of the Brownian motion are independent paths", for EVERY Brownian shape: on real objects of shape (*batch, m) with one,
+    two or three batch dimensions, the W rows, the H rows and the noise part of the Levy area A (A minus its deterministic part
+    H x W - W x H, divided by the prescribed conditional standard deviation) of any two distinct batch indices differ.  Two batch
+    indices sharing a noise element make the rows EQUAL (not merely correlated), which this detects with certainty."""
+    fails, st = [], dict(configs=0, pairs=0, shapes={})
+    for _ in range(n_cfg):
+        m = rng.choice([2, 3])
+        batch = rng.choice([(2,), (3,), (2, 2), (3, 2), (2, 3), (2, 1, 2), (2, 2, 2)])
+        levy = rng.choice(['none', 'space-time', 'davie', 'foster', 'davie', 'foster'])
+        t0, span = rng.choice([0.0, -1.0, 0.25]), rng.choice([1.0, 0.5, 3.0])
+        cfg = dict(t0=t0, span=span, size=(*batch, m), levy=levy, entropy=rng.randrange(1 << 30), cache_size=rng.choice([1, 45, None]),
+                   dt=None, tol=0.0, halfway=False)
+        st['configs'] += 1
+        st['shapes'][str(len(batch))] = st['shapes'].get(str(len(batch)), 0) + 1
+        bm = build(cfg)
+        mid = t0 + span * rng.choice([0.5, 0.25, 0.7])
+        nb = 1
+        for b in batch:
+            nb *= b
+        for (a, b) in [(t0, t0 + span), (t0, mid), (mid, t0 + span)]:
+            W, U, A = _query(bm, a, b, cfg)
+            h = b - a
+            parts = {'W': W.reshape(nb, -1)}
+            if U is not None:
+                H = U / h - 0.5 * W
+                parts['H'] = H.reshape(nb, -1)
+                if A is not None:
+                    R = A - (H.unsqueeze(-1) * W.unsqueeze(-2) - W.unsqueeze(-1) * H.unsqueeze(-2))
+                    if levy == 'foster':
+                        H2 = H ** 2
+                        std = (0.1 * h * (0.25 * h + H2.unsqueeze(-1) + H2.unsqueeze(-2))).sqrt()
+                    else:
+                        std = math.sqrt(h ** 2 / 24)
+                    parts['A-noise'] = (R / std).reshape(nb, -1)
+            for name, X in parts.items():
+                for i in range(nb):
+                    for j in range(i + 1, nb):
+                        st['pairs'] += 1
+                        if float((X[i] - X[j]).abs().max()) < 1e-9:
+                            fails.append(dict(kind='rows-share-noise', cfg=_ser(cfg), query=[a, b], which=name, rows=[i, j],
+                                              batch_shape=list(batch)))
+                            return fails, st
+    return fails, st
+
+
+def noise_shape_tie():
+    """The Lean Batch/Brownian kernels take the noise as an INPUT of the sample's shape; this tie checks that assumption on the real
+    object: every `_randn` request made while answering queries has the sample shape (W/H noise) or (*shape, m) (Levy-area noise),
+    for shapes with one to four dimensions.  Returns a list of discrepancies (empty = tie holds)."""
+    import torchsde._brownian.brownian_interval as bi
+    bad = []
+    saved = bi._randn
+    for shape in [(3,), (2, 3), (2, 2, 3), (2, 1, 2, 2), (1, 2)]:
+        for levy in ('none', 'space-time', 'davie', 'foster'):
+            seen = []
+
+            def fake(size, dtype, device, seed):
+                seen.append(tuple(size))
+                return saved(size, dtype, device, seed)
+            bi._randn = fake
+            try:
+                bm = BrownianInterval(t0=0.0, t1=1.0, size=shape, dtype=torch.float64, entropy=7, levy_area_approximation=levy)
+                cfg = dict(levy=levy)
+                for a, b in [(0.0, 1.0), (0.0, 0.3), (0.3, 0.55), (0.1, 0.9)]:
+                    _query(bm, a, b, cfg)
+            finally:
+                bi._randn = saved
+            ok = {tuple(shape), (*shape, shape[-1])}
+            for s in set(seen):
+                if s not in ok:
+                    bad.append(dict(shape=list(shape), levy=levy, requested=list(s)))
+    return bad
